@@ -87,6 +87,21 @@ STR_POOL = [b"", b"a", b"ab", b"abc", b"abd", b"b", b"B", b"z", b"foo", b"foo ba
 STR_ALPHABET = b"ab AB z01 ,.()=<>*-_%#!?[]{}+/:@^~|&$"
 
 
+BTREE_INT_LIMIT = 0x7FFF0000
+
+
+def for_index(v, t, k):
+    """values of a B-tree indexed column stay inside what the B-tree wrapper supports: strings up to 24 bytes
+    (C18 btree_pad_roundtrip) and integers below 2147418112 (known finding F-BTREE-STOPPER, probed separately by lib/btreeprobe.py)"""
+    if k != "b" or v.kind == "n":
+        return v
+    if t == "s" and len(v.v) > 20:
+        return Val("s", v.v[:20])
+    if t == "i" and v.v >= BTREE_INT_LIMIT:
+        return Val("i", BTREE_INT_LIMIT - 1 - (2**31 - 1 - v.v) % 4096)
+    return v
+
+
 def rnd_val(rng, kind, small=True):
     if kind == "i":
         return Val("i", rng.choice(INT_POOL[:12]) if small or rng.random() < 0.8 else rng.choice(INT_POOL))
